@@ -270,6 +270,6 @@ func assumptionsFor(prop string) []string {
 		"held on the executions produced, nothing more; no claim about histories outside the generator's bounds (<=14 functions, <=5 scopes, nesting <=3)",
 		"the harness owns every user function; containers are used sequentially and non-reentrantly",
 		"spec state (DESIGN.md section 5) is the oracle; its exclusions are listed in DESIGN.md section 10",
-		"dig built from /repo working tree with -tags verif (hooks only add VerifIsAcyclic, VerifMockClock, VerifSeedRand)",
+		"dig built from /repo working tree with -tags verif (hooks only add VerifIsAcyclic, VerifMockClock, VerifSeedRand, VerifCyclePath)",
 	}
 }
